@@ -330,10 +330,16 @@ def run_case(rep, case, sample=False):
                 if (A & spec.decide(m.absS, thr)[1]).any():
                     rep.fail("adjacency/link-implies-above-threshold", case, "directed Hilbert network links a pair not above thr")
                 rep.case(case_key(case), nontrivial=bool(A.any()))
-                return
-            nontrivial |= bool(check_state(rep, case, net, m, 0, hist))
+                if not any(op[0] == "set_directed" for op in case["ops"]):
+                    return
+            else:
+                nontrivial |= bool(check_state(rep, case, net, m, 0, hist))
+            skip_until_toggle = case["cls"] == "HilbertClimateNetwork" and m.directed
             for step, op in enumerate(case["ops"], 1):
                 kind, val = op
+                if skip_until_toggle and kind != "set_directed":
+                    continue        # (directed Hilbert networks: the threshold / density clauses are claimed for the undirected variant)
+                skip_until_toggle = False
                 if kind == "thr":
                     net.set_threshold(val)
                     m.thr, m.rho = val, None
@@ -359,6 +365,24 @@ def run_case(rep, case, sample=False):
                     net.set_max_delay(int(val))
                     m.rho = None
                     refresh(rep, step)
+                elif kind == "set_directed":
+                    # Hilbert networks: switch between the directed (phase-filtered) and the undirected variant of a live
+                    # network; the object must say which one it is, and be that one
+                    thr_before = float(net.threshold())
+                    net.set_directed(bool(val))
+                    m.directed, m.rho, m.thr = bool(val), None, thr_before        # the threshold in force is kept
+                    if bool(net.directed) != bool(val):
+                        rep.fail("set_directed/object-reports-requested-direction", dict(case, failed_step=step),
+                                 "directed=%r after set_directed(%r)" % (net.directed, val))
+                        break
+                    if val:
+                        A = (np.asarray(net.adjacency) != 0)
+                        if (A & spec.decide(m.absS, float(net.threshold()))[1]).any():
+                            rep.fail("adjacency/link-implies-above-threshold", case, "directed Hilbert network links a pair not above thr")
+                        if int(A.sum()) != int(net.n_links) or int(net.graph.ecount()) != int(A.sum()):
+                            rep.fail("consistency/graph-edges", dict(case, failed_step=step),
+                                     "directed: adjacency has %d links, n_links %d, graph %d" % (A.sum(), net.n_links, net.graph.ecount()))
+                        continue
                 else:
                     raise ValueError("unknown op %r" % (op,))
                 nontrivial |= bool(check_state(rep, case, net, m, step, hist))
@@ -584,6 +608,8 @@ def gen_data(tier, seed, lo, hi):
                             case["ops"] = case["ops"] + [["max_delay", 2], ["ld", 0.5]]
                         if name == "HilbertClimateNetwork":
                             case["directed"] = bool(ci == 3)
+                            case["ops"] = case["ops"] + [["set_directed", not case["directed"]], ["set_directed", case["directed"]],
+                                                         ["set_directed", not case["directed"]]]
                         if name == "CoupledTsonisClimateNetwork":
                             if d.get("small"):
                                 case["data2"] = {"small": True}
